@@ -138,7 +138,8 @@ check('C23', 'bounded-exhaustive design-space enumeration; metamorphic compariso
 
 check('C24', 'bounded-exhaustive enumeration of the law parameter space; differential exhaustion of both sides of each documented law',
       'L1 MultiCrossBlock == Merge of CrossBlocks (7 crossing configurations x 3 modes x 3 alignments x constraints), L2 Repeat == Merge REPEAT, L3 Repeat(b,[]) == '
-      'Merge([b]) == b, L4 CrossBlock == MultiCrossBlock WEIGHT: both sides built fresh, exhausted through IterateSATGen, equal multisets and trial counts; '
+      'Merge([b]) == b, L4 CrossBlock == MultiCrossBlock WEIGHT, LD Merge(blocks) == Merge(blocks, [], REPEAT, alignment of the first block), H L3 after other default-argument '
+      'combinators were built in the same process: both sides built fresh, exhausted through IterateSATGen, equal multisets and trial counts; '
       'exactly one side constructible is a violation.', 'no oracle; instances with <= 600/5000 sequences', 'DESIGN.md section 4, C24')
 
 check('C25', 'bounded-exhaustive enumeration of outer/inner block pairs; exhaustion vs reference, structural group oracle, associativity law',
@@ -152,12 +153,13 @@ check('C26', 'bounded-exhaustive enumeration of constraint placements (inner blo
       'are counted.', DESIGN_NOTE + '; A3/A4 exclusions', 'DESIGN.md section 4, C26')
 
 check('C18', 'explicit-state search over construction histories on shared factor/constraint objects (all histories up to depth 3/4; canonical states counted)',
-      '10 worlds (one shared constraint object each) x menu of 7 constructions (CrossBlocks of different geometry, MultiCrossBlock, Repeat, Nest, preamble '
-      'block): every history is replayed on a fresh world; for every block built, the exhausted IterateSATGen set and the mismatch verdicts on a probe '
+      '10 worlds (one shared constraint object each) x menu of 14 constructions (CrossBlocks of different geometry, MultiCrossBlock, Repeat, Nest, default-argument Merge, '
+      'preamble block, combinator-level constraints, one shared outer block object, Transition-crossed Nest outer): every history is replayed on a fresh world; for every block built, the exhausted IterateSATGen set and the mismatch verdicts on a probe '
       'list must equal those of the same block built alone from fresh objects.', 'IterateSATGen and the mismatch checker as observations', 'DESIGN.md section 4, C18')
 
-check('C19', 'explicit-state search over library-call histories on one block (all histories of length <= 3/4 over a 10-operation alphabet; canonical block state hashed)',
-      '6 representative blocks (plain, implied derived, hidden weight factor, continuous, derived continuous + window + constraint, Repeat with preamble): '
+check('C19', 'explicit-state search over library-call histories on one block (all histories of length <= 3/4 over an 11-operation alphabet; canonical block state hashed)',
+      '8 representative blocks (plain, implied derived, hidden weight factor, continuous, derived continuous + window + constraint, Repeat with preamble, '
+      'LatinSquare, hidden weight factor + continuous factor): '
       'after every history the canonical block state must equal the initial one, no call may raise, and every synthesize_trials call must return valid '
       'sequences with the same columns as the first.', 'discrete validity by the reference membership oracle', 'DESIGN.md section 4, C19')
 
@@ -165,7 +167,7 @@ check('C20', 'bounded-exhaustive design-space enumeration x {synthesized results
       'For every discrete design of strata S1, S2, S4, S6 (hidden weight factors, implied factors, Repeat, Nest) the three conversions are applied to '
       'synthesized and to arbitrary well-formed experiments lists: tuples, dicts and CSV rows must equal the given values per experiment and trial in '
       'design order; no HiddenName key or column; synthesized results carry exactly the declared factor names.',
-      'tuple/column order = declaration order of the design; continuous columns out of scope (A9)', 'DESIGN.md section 4, C20')
+      'tuple/column order = declaration order of the design; single-block weighted designs also with a continuous factor in the design (A9 resolved, F38)', 'DESIGN.md section 4, C20')
 
 check('C22', 'bounded design enumeration x stateless DFS over every draw of the continuous samplers (distribution.random seam / custom functions), deviation bound 2/3, horizon',
       'Designs with a base continuous factor, a same-trial derived factor, a window factor (width 2-3, stride 1-2, start None/0/late), a cumulative factor '
